@@ -40,27 +40,27 @@ namespace occa {
   void modeMemoryPool_t::addModeMemoryRef(modeMemory_t *mem) {
     modeMemoryRing.addRef(mem);
     /*Find how much of this mem is a new reservation*/
-    dim_t lo = (mem->offset / alignment) * alignment; //Round down to alignment
-    dim_t hi = ((mem->offset + mem->size + alignment - 1)
-                / alignment) * alignment; //Round up
+    const dim_t lo = (mem->offset / alignment) * alignment; //Round down to alignment
+    const dim_t hi = ((mem->offset + mem->size + alignment - 1)
+                      / alignment) * alignment; //Round up
+    dim_t covered = 0;  /*Part of [lo,hi) that is already reserved*/
+    dim_t cursor = lo;  /*[lo,cursor) has been accounted for*/
     for (modeMemory_t* m : reservations) {
       const dim_t mlo = (m->offset / alignment) * alignment;
       const dim_t mhi = ((m->offset + m->size + alignment - 1)
                         / alignment) * alignment;
       if (mlo >= hi) break;
-      if (mhi <= lo) continue;
+      if (mhi <= cursor) continue;
 
-      if (mlo <= lo && mhi >= hi) {
-        hi = lo;
-      } else {
-        hi = std::min(hi, mhi);
-        lo = std::max(lo, mlo);
-      }
-      if (lo == hi) break;
+      const dim_t from = std::max(cursor, mlo);
+      const dim_t to   = std::min(hi, mhi);
+      covered += to - from;
+      cursor = to;
+      if (cursor == hi) break;
     }
     /*Add this mem to the reservation list*/
     reservations.emplace(mem);
-    reserved += hi-lo;
+    reserved += (hi - lo) - covered;
   }
 
   void modeMemoryPool_t::removeModeMemoryRef(modeMemory_t *mem) {
@@ -71,25 +71,25 @@ namespace occa {
     reservations.erase(pos);
 
     /*Find how much of this mem is removed from reserved space*/
-    dim_t lo = (mem->offset / alignment) * alignment; //Round down to alignment
-    dim_t hi = ((mem->offset + mem->size + alignment - 1)
-                / alignment) * alignment; //Round up
+    const dim_t lo = (mem->offset / alignment) * alignment; //Round down to alignment
+    const dim_t hi = ((mem->offset + mem->size + alignment - 1)
+                      / alignment) * alignment; //Round up
+    dim_t covered = 0;  /*Part of [lo,hi) that stays reserved by others*/
+    dim_t cursor = lo;  /*[lo,cursor) has been accounted for*/
     for (modeMemory_t* m : reservations) {
       const dim_t mlo = (m->offset / alignment) * alignment;
       const dim_t mhi = ((m->offset + m->size + alignment - 1)
                         / alignment) * alignment;
       if (mlo >= hi) break;
-      if (mhi <= lo) continue;
+      if (mhi <= cursor) continue;
 
-      if (mlo <= lo && mhi >= hi) {
-        hi = lo;
-      } else {
-        hi = std::min(hi, mhi);
-        lo = std::max(lo, mlo);
-      }
-      if (lo == hi) break;
+      const dim_t from = std::max(cursor, mlo);
+      const dim_t to   = std::min(hi, mhi);
+      covered += to - from;
+      cursor = to;
+      if (cursor == hi) break;
     }
-    reserved -= hi-lo;
+    reserved -= (hi - lo) - covered;
   }
 
   bool modeMemoryPool_t::needsFree() const {
